@@ -97,6 +97,15 @@ class Module:
                 self.assigns[st.target.id] = st.value
             elif isinstance(st, (ast.If, ast.Try)):
                 # conditional top-level definitions (try: import msbuild ...)
+                if isinstance(st, ast.If):
+                    # host family is folded to posix (stated assumption)
+                    t = ast.unparse(st.test)
+                    if t == "platform_info().family == 'windows'":
+                        self._scan_toplevel(st.orelse)
+                        continue
+                    if t == "platform_info().family != 'windows'":
+                        self._scan_toplevel(st.body)
+                        continue
                 for sub in _stmt_bodies(st):
                     self._scan_toplevel(sub)
             elif isinstance(st, ast.With):
